@@ -117,6 +117,28 @@ impl NamespaceStates {
         state.finish(origin, result)
     }
 
+    /// Our outgoing request was declined by the remote because it is already syncing with us.
+    ///
+    /// If we accepted the remote's request in the meantime, the slot belongs to that session and is
+    /// freed when it finishes. Otherwise (the remote's own request never reached us, or its session
+    /// already ended) nothing else would free the slot, so it is released here.
+    ///
+    /// Returns `Some(resync)` if the slot was released, where `resync` is true if another sync
+    /// request should be triggered right afterwards.
+    pub fn connect_declined(&mut self, namespace: &NamespaceId, node: EndpointId) -> Option<bool> {
+        let state = self.entry(namespace, node)?;
+        match state.state {
+            SyncState::Running {
+                origin: Origin::Connect(_),
+                ..
+            } => {
+                state.state = SyncState::Idle;
+                Some(std::mem::take(&mut state.resync_requested))
+            }
+            _ => None,
+        }
+    }
+
     /// Set whether a [`super::live::Event::PendingContentReady`] may be emitted once the pending queue
     /// becomes empty.
     ///
